@@ -38,7 +38,8 @@ def build_x(d):
     from miasmx.expression import expression as E
     k = d[0]
     if k == 'smem':
-        return E.ExprMem(build_x(d[2]), d[3], E.ExprId(d[1], 16, is_reg=True))
+        seg = E.ExprId(d[1], 16, is_reg=True) if isinstance(d[1], str) else build_x(d[1])       # a register name or a selector expression
+        return E.ExprMem(build_x(d[2]), d[3], seg)
     if k == 'mem': return E.ExprMem(build_x(d[1]), d[2])
     if k == 'op': return E.ExprOp(d[1], *[build_x(x) for x in d[2]])
     if k == 'slice': return E.ExprSlice(build_x(d[1]), d[2], d[3])
@@ -49,7 +50,7 @@ def build_x(d):
 def undesc_x(e):
     n = e.__class__.__name__
     if n == 'ExprMem' and e.segm is not None:
-        return ('smem', getattr(e.segm, 'name', str(e.segm)), undesc_x(e.arg), e.size)
+        return ('smem', e.segm.name if e.segm.__class__.__name__ == 'ExprId' else undesc_x(e.segm), undesc_x(e.arg), e.size)
     if n == 'ExprMem': return ('mem', undesc_x(e.arg), e.size)
     if n == 'ExprOp': return ('op', e.op, tuple(undesc_x(a) for a in e.args))
     if n == 'ExprSlice': return ('slice', undesc_x(e.arg), e.start, e.stop)
@@ -79,6 +80,10 @@ def operand_pool(w):
         for i, s in enumerate(split):
             slots.append((('id', 'c%d_%d' % (s, i), s), pos, pos + s)); pos += s
         pool.append(('compose', tuple(slots)))
+    if w >= 8:
+        # two concatenations with the same bit layout and different contents (the order key must look inside)
+        pool.append(('compose', ((('id', 'zf', 1), 0, 1), (('id', 'h%d' % (w - 1), w - 1), 1, w))))
+        pool.append(('compose', ((('id', 'cf', 1), 0, 1), (('id', 'h%d' % (w - 1), w - 1), 1, w))))
     return pool
 
 def bracketings(op, xs):
@@ -153,6 +158,9 @@ def contexts(w):
         out.append(('mem-in-op', lambda d: ('op', '+', (('mem', d, 32), a))))
     if w in (8, 16, 32):
         out.append(('compose', lambda d: ('compose', ((d, 0, w), (('int', w, 0), w, 2 * w)))))
+    if w == 16:
+        # a computed segment selector
+        out.append(('selector', lambda d: ('smem', d, ('id', 'p32', 32), 32)))
     return out
 
 def dwidth_x(d):
